@@ -38,7 +38,7 @@ prop('C09',
       '"elected never exceed seats" for simultaneous quota elections (arithmetic)'])
 
 prop('C01',
-     [('R01', cf.r01_total_sweep), ('R02', cf.r02_elect_sites), ('R03', bt.r03_batch_cap), ('R04', lp.r04_loops), ('R05', cf.r05_status_ownership),
+     [('R01', cf.r01_total_sweep), ('R02', cf.r02_elect_sites), ('R03', bt.r03_batch_cap), ('R03b', bt.r03b_defeat_remaining), ('R04', lp.r04_loops), ('R05', cf.r05_status_ownership),
       ('R38', rr.r38_first_and_last_action)],
      'Static analysis of /repo source over the count() of every registered rule class (CFG path rules with a small '
      'path-sensitive fact domain, candidate-derivation dataflow): every path to the end of count() completes a total '
@@ -47,7 +47,7 @@ prop('C01',
      'main-loop progress, decreasing Meek surplus, QPQ restart measure); only hopefuls/pendings receive actions; '
      'Election.count runs postCheck after the end action. ' + NOT_BEHAVIOUR,
      ['when count() returns nobody is hopeful (R01)', 'nobody elected without quota or seat guard (R02)',
-      'batch exclusions capped and duplicate-free (R03)', 'every loop has a variant; every main-loop iteration makes progress (R04)',
+      'batch exclusions capped and duplicate-free (R03)', 'remaining hopefuls are defeated only when the seats are filled (R03b)', 'every loop has a variant; every main-loop iteration makes progress (R04)',
       'only hopefuls/pendings are elected or defeated; withdrawn never (R05)', 'postCheck after the end action (R38)'],
      ['"exactly min(seats, electable) winners" as a number'])
 
